@@ -17,6 +17,7 @@ void *uk_malloc(size_t n);
 void  uk_free(void *p);
 long  uk_live(void);                                        /* live uk_malloc blocks */
 long  uk_live_libc(void);
+size_t uk_blocksize(const void *p);                        /* size of a live uk_malloc block (for the ledger manager's realloc) */
 long  uk_libc_calls(void);                                  /* calls to the C library allocator so far */
 void *uk_buf(size_t n, const char *name);                   /* fresh exact-size object, not in the heap ledger */
 void  uk_readonly(const void *p, size_t n);                 /* the object holding p becomes read-only (n: its size, for native replay) */
